@@ -354,6 +354,8 @@ class Component(composites.Composite, metaclass=ComponentType):
     def setLink(self, key, otherComp, otherCompKey):
         """Set the dimension link."""
         self.p[key] = _DimensionLink((otherComp, otherCompKey))
+        # what the dimension resolves to may have changed: cached volumes must follow, as in setDimension
+        self.clearLinkedCache()
 
     def setProperties(self, properties):
         """Apply thermo-mechanical properties of a Material."""
